@@ -11,7 +11,9 @@ import (
 
 	"golang.org/x/tools/go/packages"
 
+	"csverify/bounds"
 	"csverify/core"
+	"csverify/lin"
 )
 
 func init() { register("C20", checkC20) }
@@ -329,6 +331,7 @@ func main() {
 	})
 	hexWhitespaceRule(r, prog, pt)
 	hexLineSourceRule(r, prog, pt)
+	hexBoundsRule(r, prog, pt)
 	r.Ob("H2", "ParseAnnotatedHex output is appended only from hex.DecodeString results", prog.Pos(hf.Pos()), okApp && nApp >= 1, "the returned bytes must be exactly the concatenation of the decoded lines")
 }
 
@@ -671,4 +674,44 @@ func hexLineSourceRule(r *core.Result, prog *core.Program, pk *packages.Package)
 	}
 	r.Ob("H4", "ParseAnnotatedHex iterates over the \\n-separated pieces of the whole input", prog.Pos(f.Pos()), okSrc,
 		"undecided: "+detail+"; comments end at a line break, so the pieces must be exactly the input split at every line feed")
+}
+
+// H5: every index / slice expression of ParseAnnotatedHex is in bounds (guard-fact engine with the contracts of
+// the strings search functions: -1 <= result < len(s)). In particular the comment cut s[:i] needs i != -1.
+func hexBoundsRule(r *core.Result, prog *core.Program, pk *packages.Package) {
+	f := core.FindFunc(pk, "ParseAnnotatedHex")
+	if f == nil {
+		return
+	}
+	idx := func(v bounds.View) []lin.Fact {
+		res, ok1 := v.Result(0)
+		l, ok2 := v.ParamLen(0)
+		if !ok1 || !ok2 {
+			return nil
+		}
+		return []lin.Fact{lin.LE(lin.Const(-1), res), lin.LE(res, l.Add(lin.Const(-1)))}
+	}
+	cfg := &bounds.Config{Info: pk.TypesInfo, Fset: prog.Fset, Sizes: pk.TypesSizes,
+		Specs: map[string]*bounds.FuncSpec{
+			"strings.Index":     {ErrIdx: -1, Post: idx},
+			"strings.IndexByte": {ErrIdx: -1, Post: idx},
+			"strings.IndexRune": {ErrIdx: -1, Post: idx},
+			"strings.IndexAny":  {ErrIdx: -1, Post: idx},
+			"strings.LastIndex": {ErrIdx: -1, Post: idx},
+		},
+	}
+	n := 0
+	obs, unsup := bounds.Analyze(cfg, funcSource(pk, f, false))
+	for _, u := range unsup {
+		r.Fail("unsupported-construct", f.Name+" :: "+u, prog.Pos(f.Pos()), "the engine does not model this construct; index obligations in this function are undecided (fail closed)")
+	}
+	keyer := &obKeyer{}
+	for _, ob := range obs {
+		if ob.Rule != "O-idx" {
+			continue
+		}
+		n++
+		r.Ob("H5", keyer.key(f.Name, ob.Site), prog.Pos(ob.Pos), ob.OK, ob.Detail)
+	}
+	r.Floor("index sites of ParseAnnotatedHex", n, 1)
 }
